@@ -91,8 +91,16 @@ func (c *c12ctx) add(what, op string, check func() string, owned ...[]byte) {
 	}
 }
 
-func (c *c12ctx) verify(after string) {
-	for _, e := range c.ledger {
+// verify re-checks earlier results: all of them when full, otherwise the newest 12 and a random 48
+func (c *c12ctx) verify(after string, full bool) {
+	pick := c.ledger
+	if !full && len(c.ledger) > 60 {
+		pick = append([]ledgerEntry(nil), c.ledger[len(c.ledger)-12:]...)
+		for i := 0; i < 48; i++ {
+			pick = append(pick, c.ledger[c.g.Intn(len(c.ledger)-12)])
+		}
+	}
+	for _, e := range pick {
 		if d := e.check(); d != "" {
 			cls := "C12." + e.what
 			h := c.hist
@@ -101,6 +109,9 @@ func (c *c12ctx) verify(after string) {
 			}
 			c.res.Violate(cls, fmt.Sprintf("a result returned by `%s` changed after `%s`: %s", e.op[:min(len(e.op), 80)], after[:min(len(after), 80)], d), append([]string(nil), h...))
 		}
+	}
+	if !full {
+		return
 	}
 	// a changed entry would be reported again after every later call: drop what has been reported
 	kept := c.ledger[:0]
@@ -381,7 +392,7 @@ func (c *c12ctx) opFrameThenDecode(name string, img []byte, cname string) {
 }
 
 func runC12(res *Result, d *Driver, g *Rng, tier string) {
-	res.Rule = "histories of IDecode / IEncode / String / content split / pooled helpers / TLV serialisation calls, any mix of the 58 PDU types (records as C01, images as C11 incl. optional parameters), the caller overwriting every input buffer right after each decode, one time in three the output it was handed, and now and then the byte slices inside an earlier decoded PDU (it owns them); a ledger re-checks every earlier result (deep copy taken at return) after every call; pointer-overlap test of every []byte reachable from a decoded PDU against the input buffer; frames taken from the zero-copy extractor, decoded, then the connection buffer refilled; non-trivial = distinct (call, position in history)"
+	res.Rule = "histories of IDecode / IEncode / String / content split / pooled helpers / TLV serialisation calls, any mix of the 58 PDU types (records as C01, images as C11 incl. optional parameters), the caller overwriting every input buffer right after each decode, one time in three the output it was handed, and now and then the byte slices inside an earlier decoded PDU (it owns them); a ledger re-checks earlier results (deep copy taken at return): the newest 12 and a random 48 after every call, all of them every 20 calls and at the end; pointer-overlap test of every []byte reachable from a decoded PDU against the input buffer; frames taken from the zero-copy extractor, decoded, then the connection buffer refilled; non-trivial = distinct (call, position in history)"
 	if err := loadLayouts(layoutsPath); err != nil {
 		res.Disagreements = append(res.Disagreements, Violation{Class: "driver-failure", What: err.Error()})
 		return
@@ -389,7 +400,7 @@ func runC12(res *Result, d *Driver, g *Rng, tier string) {
 	thorough := tier == "thorough"
 	nh, hl := 30, 400
 	if thorough {
-		nh, hl = 300, 1000
+		nh, hl = 120, 1000
 	}
 	names := pduNames()
 	// PDU types that carry byte slices (optional parameters): chosen half of the time, with values drawn
@@ -454,7 +465,7 @@ func runC12(res *Result, d *Driver, g *Rng, tier string) {
 					c.opFrameThenDecode(name, img, cn)
 				}
 			}
-			c.verify(c.hist[len(c.hist)-1])
+			c.verify(c.hist[len(c.hist)-1], step%20 == 19 || step == hl-1)
 		}
 		res.Count("histories")
 	}
